@@ -98,7 +98,8 @@ impl Transaction {
     // Transaction::empty(): no kernels, no outputs, (legacy) commit-only empty inputs
     #[verifier::external_body]
     pub fn empty() -> (r: Transaction)
-        ensures tx_kernels(r) == Seq::<TxKernelFull>::empty(), body_outputs(r.body) == Seq::<Output>::empty(), body_inputs(r.body) is None
+        ensures tx_kernels(r) == Seq::<TxKernelFull>::empty(), body_outputs(r.body) == Seq::<Output>::empty(), body_inputs(r.body) is None,
+            tx_num_inputs(r) == 0, tx_num_outputs(r) == 0
     { unimplemented!() }
     #[verifier::external_body]
     pub fn with_kernel(self, k: TxKernelFull) -> (r: Transaction)
@@ -146,10 +147,12 @@ impl TransactionBody {
     // replace_inputs / replace_outputs change only the named list
     #[verifier::external_body]
     pub fn replace_inputs(self, inputs: Inputs) -> (r: TransactionBody)
-        ensures body_inputs(r) == inputs_view(inputs), body_outputs(r) == body_outputs(self), body_kernels(r.t) == body_kernels(self.t) { unimplemented!() }
+        ensures body_inputs(r) == inputs_view(inputs), body_outputs(r) == body_outputs(self), body_kernels(r.t) == body_kernels(self.t),
+            body_num_inputs(r.t) == inputs.spec_len(), body_num_outputs(r.t) == body_num_outputs(self.t) { unimplemented!() }
     #[verifier::external_body]
     pub fn replace_outputs(self, outputs: &[Output]) -> (r: TransactionBody)
-        ensures body_outputs(r) == outputs@, body_inputs(r) == body_inputs(self), body_kernels(r.t) == body_kernels(self.t) { unimplemented!() }
+        ensures body_outputs(r) == outputs@, body_inputs(r) == body_inputs(self), body_kernels(r.t) == body_kernels(self.t),
+            body_num_outputs(r.t) == outputs@.len(), body_num_inputs(r.t) == body_num_inputs(self.t) { unimplemented!() }
 }
 impl TxKernelFull {
     #[verifier::external_body]
